@@ -195,8 +195,15 @@ def fixed_point_bounded_instance():
                 tr_ = cls()
             # every covariance structure of the Gaussian mixture
             kw_ = {'covariance_type': ['full', 'diagonal', 'spherical'][(inp['seed'] // 2) % 3]} if model == 'gmm' else {}
-            m = tr_.fit(y, initialization=init, iterations=it, **kw_)
-            post = m.predict(y)
+            if model == 'cacgmm' and inp['seed'] % 3 == 1:
+                # a source-activity mask that always allows the true class (and a random subset of the others)
+                act = rng.rand(F, K, N) < 0.6
+                act |= onehot.astype(bool)[None]
+                m = tr_.fit(y, initialization=init * act, iterations=it, source_activity_mask=act)
+                post = m.predict(y, source_activity_mask=act)
+            else:
+                m = tr_.fit(y, initialization=init, iterations=it, **kw_)
+                post = m.predict(y)
             if model == 'cacgmm':
                 param = m.cacg.covariance_eigenvectors[..., -1]
             elif model == 'cwmm':
